@@ -130,12 +130,18 @@ func report(o *options, p *Program, units []*UnitResult, loadSecs, genSecs, solv
 		for _, ob := range u.VC.obls {
 			if ob.Vacuity {
 				vacuityChecks++
+				if o.verbose && ob.Seconds > 3 {
+					fmt.Printf("  slow vacuity probe %.1fs %s %s\n", ob.Seconds, ob.Result, ob.Name)
+				}
 				if ob.Result == "unsat" {
 					undecided = append(undecided, fmt.Sprintf("%s: contradictory context (vacuity probe %s is unsat)", u.Name, ob.Name))
 				}
 				continue
 			}
 			if !belongs(o.prop, u, ob, clauseProps(u, ob)) {
+				if o.verbose && ob.Seconds > 3 {
+					fmt.Printf("  slow (not counted for %s) %.1fs %s %s\n", o.prop, ob.Seconds, ob.Result, ob.Name)
+				}
 				continue
 			}
 			obligations++
